@@ -46,7 +46,11 @@ def gen_split(r):
         L = [f"{v} = {init}"]
         if has_limit:
             L.append(f"limit = {limit_c}")
-        L += ["", f"def {bump}(a):", f"    global {v}", f"    {v} = {v} + a * {i + 2}"]
+        early = r.random() < 0.5                # a return that is not the last statement of the library function
+        L += ["", f"def {bump}(a):", f"    global {v}"]
+        if early:
+            L += [f"    if a > {r.choice([2, 50])}:", f"        d{i}.On = a", "        return"]
+        L += [f"    {v} = {v} + a * {i + 2}"]
         if has_limit:
             L += [f"    if {v} > limit:", f"        {v} = {v} - limit"]
         L += [f"    d{i}.Setting = {v}", ""]
@@ -61,7 +65,10 @@ def gen_split(r):
         if has_limit:
             M.append(f"{P}_limit = {limit_c}")
         merged_top += M
-        F = [f"def {P}_{bump}(a):", f"    global {P}_{v}", f"    {P}_{v} = {P}_{v} + a * {i + 2}"]
+        F = [f"def {P}_{bump}(a):", f"    global {P}_{v}"]
+        if early:
+            F += L[L.index(f"    global {v}") + 1:L.index(f"    global {v}") + 4]
+        F += [f"    {P}_{v} = {P}_{v} + a * {i + 2}"]
         if has_limit:
             F += [f"    if {P}_{v} > {P}_limit:", f"        {P}_{v} = {P}_{v} - {P}_limit"]
         F += [f"    d{i}.Setting = {P}_{v}", ""]
